@@ -243,7 +243,7 @@ def subject_sc(r, nr):
 
 
 # ------------------------------------------------------------------------------------------ structured reports
-def _measurement_report(r, nr, src, use_3d):
+def _measurement_report(r, nr, src, use_3d, want_groups=False):
     """A TID 1500 measurement report touching many content-item classes."""
     import highdicom as hd
     from highdicom import sr
@@ -291,6 +291,8 @@ def _measurement_report(r, nr, src, use_3d):
             groups.append(sr.MeasurementsAndQualitativeEvaluations(
                 tracking_identifier=sr.TrackingIdentifier(uid=new_uid(), identifier=f'grp {g}'),
                 measurements=meas, qualitative_evaluations=evals))
+    if want_groups:
+        return groups
     kinds = {type(g).__name__ for g in groups}
     if len(kinds) > 1:      # a report holds groups of one template only
         groups = [g for g in groups if type(g).__name__ == type(groups[0]).__name__]
@@ -538,6 +540,8 @@ def subject_content(r, nr):
             sr.Measurement(name=codes.SCT.AreaOfDefinedRegion, value=1.5, unit=codes.UCUM.SquareMillimeter),
             sr.QualitativeEvaluation(name=name, value=codes.SCT.NotSignificant),
             _measurement_report(r, nr, images, use_3d=False),
+            *_measurement_report(r, nr, images, use_3d=False, want_groups=True),
+            *_measurement_report(r, nr, images, use_3d=True, want_groups=True),
             hd.seg.SegmentDescription(
                 segment_number=1, segment_label='full', segmented_property_category=codes.SCT.Tissue,
                 segmented_property_type=codes.SCT.Tissue, algorithm_type='AUTOMATIC',
